@@ -921,6 +921,7 @@ type Script struct {
 	Logic   string
 	ForCVC5 bool
 	RecDefs []*RecDef
+	MBQI    bool // keep model-based quantifier instantiation (cover checks look for models)
 }
 
 type RecDef struct {
@@ -975,9 +976,17 @@ func (sc *Script) Render() string {
 	} else {
 		sb.WriteString("(set-option :produce-models true)\n")
 	}
+	unfold := unfoldRecs(sc.Asserts, sc.RecDefs, 2)
+	sc.Asserts = append(append([]*Term{}, sc.Asserts...), unfold...)
 	all := append([]*Term{}, sc.Asserts...)
-	for _, rd := range sc.RecDefs {
-		all = append(all, rd.Body)
+	hasQuant := false
+	collect(all, func(t *Term) {
+		if t.Op == "forall" || t.Op == "exists" {
+			hasQuant = true
+		}
+	})
+	if hasQuant && !sc.ForCVC5 && !sc.MBQI {
+		sb.WriteString("(set-option :smt.mbqi false)\n")
 	}
 	// range facts for atoms (outside quantifiers only; bound-var atoms are handled by the builder)
 	bound := map[*Term]bool{}
@@ -986,11 +995,6 @@ func (sc *Script) Render() string {
 			bound[b] = true
 		}
 	})
-	for _, rd := range sc.RecDefs {
-		for _, p := range rd.Params {
-			bound[p] = true
-		}
-	}
 	dependsBound := map[*Term]bool{}
 	collect(all, func(t *Term) {
 		if bound[t] {
@@ -1067,15 +1071,9 @@ func (sc *Script) Render() string {
 	for _, n := range names {
 		fmt.Fprintf(&sb, "(declare-fun %s () %s)\n", quoteSym(n), sortRef(syms[n].Sort))
 	}
-	recNames := map[string]bool{}
-	for _, rd := range sc.RecDefs {
-		recNames[rd.UF.Name] = true
-	}
 	unames := make([]string, 0, len(ufs))
 	for n := range ufs {
-		if !recNames[n] {
-			unames = append(unames, n)
-		}
+		unames = append(unames, n)
 	}
 	sort.Strings(unames)
 	for _, n := range unames {
@@ -1088,22 +1086,6 @@ func (sc *Script) Render() string {
 			sb.WriteString(sortRef(a))
 		}
 		fmt.Fprintf(&sb, ") %s)\n", sortRef(u.Ret))
-	}
-	if len(sc.RecDefs) > 0 {
-		sb.WriteString("(define-funs-rec (")
-		for _, rd := range sc.RecDefs {
-			fmt.Fprintf(&sb, "(%s (", quoteSym(rd.UF.Name))
-			for _, p := range rd.Params {
-				fmt.Fprintf(&sb, "(%s %s)", quoteSym(p.Name), sortRef(p.Sort))
-			}
-			fmt.Fprintf(&sb, ") %s)", sortRef(rd.UF.Ret))
-		}
-		sb.WriteString(") (")
-		for _, rd := range sc.RecDefs {
-			printTerm(&sb, rd.Body, nil)
-			sb.WriteByte(' ')
-		}
-		sb.WriteString("))\n")
 	}
 	// shared sub-terms not depending on bound variables become define-funs
 	named := map[*Term]string{}
@@ -1150,4 +1132,60 @@ func sortRef(s *Sort) string {
 		return "(Array " + sortRef(s.Idx) + " " + sortRef(s.Elem) + ")"
 	}
 	return s.Name
+}
+
+// unfoldRecs instantiates the defining equation of every recursive spec function for each of
+// its applications occurring (outside quantifier scope) in ts, to the given depth ("fuel").
+// The functions are total (structural recursion on a decreasing integer with a base case), so
+// the instances are consequences of the definition.
+func unfoldRecs(ts []*Term, defs []*RecDef, depth int) []*Term {
+	if len(defs) == 0 {
+		return nil
+	}
+	byName := map[string]*RecDef{}
+	for _, d := range defs {
+		byName[d.UF.Name] = d
+	}
+	done := map[*Term]bool{}
+	var out []*Term
+	frontier := ts
+	for lvl := 0; lvl < depth; lvl++ {
+		bound := map[*Term]bool{}
+		collect(frontier, func(t *Term) {
+			for _, b := range t.Bnd {
+				bound[b] = true
+			}
+		})
+		var apps []*Term
+		collect(frontier, func(t *Term) {
+			if t.Op == "app" && byName[t.Name] != nil && !done[t] {
+				dep := false
+				collect([]*Term{t}, func(x *Term) {
+					if bound[x] {
+						dep = true
+					}
+				})
+				if !dep {
+					apps = append(apps, t)
+				}
+			}
+		})
+		var next []*Term
+		for _, a := range apps {
+			done[a] = true
+			d := byName[a.Name]
+			m := map[*Term]*Term{}
+			for i, p := range d.Params {
+				m[p] = a.Args[i]
+			}
+			inst := Eq(a, Subst(d.Body, m))
+			out = append(out, inst)
+			next = append(next, inst)
+		}
+		frontier = next
+		if len(frontier) == 0 {
+			break
+		}
+	}
+	return out
 }
